@@ -12,6 +12,7 @@ class Node:
     name: str = None                # node name
     value_raw: str = None           # Raw value
     value_ref: str = None           # Reference
+    value_injected: bool = False    # Reference has been replaced by the referenced value
     value_fn: str = None            # Function
     value_expr: str = None          # Expression
     value_slice: List[tuple] = None # Slice
